@@ -123,12 +123,16 @@ var microQueries = []struct{ sql, want string }{
 	{`SELECT groupBitOr(a), groupBitOr(bitShiftLeft(a = 1, 0) + bitShiftLeft(b = 'y', 1)), bitAnd(6, 3), bitOr(4, 1), bitShiftLeft(1, 3), bitShiftRight(8, 2) FROM t`, `7|3|2|5|8|2`},
 	{`SELECT count(DISTINCT b), uniqExact(b), count(distinct t.b) FROM t`, `3|3|3`},
 	{`SELECT groupUniqArrayArray(xs), sumArray(xs), groupArrayArray(xs), maxArray(xs) FROM arr`, `[1,2,7]|10|[1,2,7]|7`},
-	{`SELECT k, count(), count(v), sum(v), min(v), any(v), groupArray(v), avg(v) FROM n GROUP BY k ORDER BY k`, `'a'|2|1|1|1|1|[1]|1;'b'|2|1|5|5|5|[5]|5;'c'|1|0|0|0|0|[]|nan`},
+	{`SELECT k, count(), count(v), sum(v), min(v), any(v), groupArray(v), avg(v) FROM n GROUP BY k ORDER BY k`, `'a'|2|1|1|1|1|[1]|1;'b'|2|1|5|5|5|[5]|5;'c'|1|0|NULL|NULL|NULL|[]|NULL`},
 	{`SELECT k FROM n WHERE v > 0 ORDER BY k`, `'a';'b'`},
 	{`SELECT k, v FROM n ORDER BY v DESC, k`, `'b'|5;'a'|1;'a'|NULL;'b'|NULL;'c'|NULL`},
 	{`SELECT k, v FROM n ORDER BY v ASC NULLS FIRST, k LIMIT 4`, `'a'|NULL;'b'|NULL;'c'|NULL;'a'|1`},
 	{`SELECT v IN (1, 5), v NOT IN (1), k IN ('a', 'b') FROM n ORDER BY k, v`, `1|0|1;NULL|NULL|1;1|1|1;NULL|NULL|1;NULL|NULL|0`},
-	// errors ClickHouse raises
+	// AggregateFunctionNull: Nullable argument => Nullable result, NULL unless a row was added (count/uniq/groupArray exempt)
+	{`SELECT b, anyIf(toFloat64OrNull(b), b = 'x'), sumIf(toFloat64OrNull(b), 1), maxIf(a, b = 'q'), countIf(toFloat64OrNull(b), 1), min(toFloat64OrNull(toString(a))) FROM t GROUP BY b ORDER BY b`, `'x'|NULL|NULL|0|0|1;'y'|NULL|NULL|0|0|2;'z'|NULL|NULL|0|0|4`},
+	{`SELECT sumIf(av, isNotNull(av)), avgIf(av, isNotNull(av)), minIf(av, isNotNull(av)), sum(av), avg(av), count(av), groupArray(av) FROM (SELECT b, anyIf(toFloat64OrNull(b), b = 'x') AS av FROM t GROUP BY b)`, `NULL|NULL|NULL|NULL|NULL|0|[]`},
+	{`SELECT sum(v), max(v), avg(v), any(v), count(v) FROM (SELECT toFloat64OrNull(b) AS v FROM t)`, `NULL|NULL|NULL|NULL|0`},
+	{`SELECT sum(v), avg(v) FROM (SELECT if(a > 2, toFloat64(a), NULL) AS v FROM t)`, `7|3.5`},
 	// IN
 	{`SELECT a FROM t WHERE a IN (1, 3) ORDER BY a`, `1;3`},
 	{`SELECT a FROM t WHERE a IN (SELECT a FROM u) ORDER BY a`, `1;3`},
